@@ -22,7 +22,7 @@ INFO = {
                    "Merkle-path shape check (equal vector lengths, binary direction values) guards proof_values_from_witness and "
                    "inputs_for_witness_calculation; a position outside the tree is propagated as Err. R12-3: every success path of a "
                    "proving entry point must pass through a check that the witness satisfies the circuit or a verification of the "
-                   "produced proof before writing output. R12-4 whole-message writes: the proving and witness-export entry points emit output only through write_all / serialize_compressed, never through Write::write whose count could be short. R12-5 fixed hashing arity: every Poseidon / tree-hasher call site outside the four pass-through wrappers passes an array literal of 1..8 elements (premise of classifying Poseidon's own indexing as internal). R12-6 (shared with C05 R05-1): nothing process-wide (a cache of the decoded graph, a thread-local scratch buffer, any static or interior-mutable state) is reachable from the witness calculation. R12-7 (shared with C01 R01-3): the prover hashes exactly the signal_len bytes of the signal and takes the request's field elements whole, as the verifier will read them.",
+                   "produced proof before writing output. R12-4 whole-message writes: the proving and witness-export entry points emit output only through write_all / serialize_compressed, never through Write::write whose count could be short. R12-5 fixed hashing arity: every Poseidon / tree-hasher call site outside the four pass-through wrappers passes an array literal of 1..8 elements (premise of classifying Poseidon's own indexing as internal). R12-6 (shared with C05 R05-1): nothing process-wide (a cache of the decoded graph, a thread-local scratch buffer, any static or interior-mutable state) is reachable from the witness calculation. R12-7 (shared with C01 R01-3): the prover hashes exactly the signal_len bytes of the signal and takes the request's field elements whole, as the verifier will read them. R12-8 (shared with C07): the tree lookup behind proving returns Err for a position outside the tree and the stored path otherwise, in the three back ends.",
     "not_decided": "which requests the circuit can satisfy (circuit semantics: e.g. message_id or limit beyond the circuit's 16-bit range); "
                    "panics inside arkworks' prover",
     "assumptions": ["in-memory lengths are below 2^48, so len*32 + small does not overflow usize", "the instance's graph and key were accepted at construction (resource class)"],
@@ -239,6 +239,16 @@ def run(ctx):
     # so another instance or an earlier failed call cannot make a valid request produce an unverifiable proof
     from . import c05
     c05.check_purity(ctx, ctx.fb("default"), rule="R12-6")
+    # R12-8 (shared with C07 R07-1..R07-3): the tree lookup behind generate_rln_proof returns Err (never panics) for a position outside
+    # the tree and the stored path otherwise, in the three back ends
+    from . import c07
+    from ..main import Ctx as _Ctx8
+    sub8 = _Ctx8(ctx.pid, ctx.tier)
+    c07.check_full(sub8, ctx.fb("default"))
+    c07.check_optimal(sub8, ctx.fb("default"))
+    c07.check_pmtree(sub8, ctx.fb("default"))
+    for r in sub8.results:
+        (ctx.ok if r.status == "ok" else ctx.fail)("R12-8", r.instance, r.reason, r.loc)
     # R12-7 (shared with C01 R01-3): the proof is made for the request as the verifier will read it: the prover hashes exactly the
     # signal_len bytes of the signal (not what follows them) and takes the four field elements whole
     from . import c01
